@@ -674,6 +674,11 @@ class HttpRequestParser(HttpParser[RawRequestMessage]):
             raise BadStatusLine(line)
         version_o = HttpVersion(int(match.group(1)), int(match.group(2)))
 
+        # A bare LF is not a line ending; it must not become part of the target
+        # (feed_data() only rejects it while the line is still incomplete).
+        if "\n" in path:
+            raise BadStatusLine(line)
+
         if method == "CONNECT":
             # authority-form,
             # https://datatracker.ietf.org/doc/html/rfc7230#section-5.3.3
